@@ -25,6 +25,9 @@ THEOREMS = [
 RULE = ("seeded generator over classes {generic, neg (negative coordinates), mixed (b+d of both signs), reorder, near, "
         "diag (diagonal points mixed in), scale (x 2^-10..2^20), empty, one_empty, single, dyadic (small dyadic grid), repaired, "
         "multi (bit-identical shared points with different multiplicities), intdtype (int32/int64 arrays, compared with float64), "
+        "narrow (diagrams held as uint8/int8/uint16/int16/uint32/int32/float16/float32 arrays whose values sit in one region of the dtype's "
+        "range: high = all coordinates above 0.55 max, so that b + d does not fit the dtype; low = below 0.55 min (signed) or the bottom fifth; "
+        "small; full; shift and factor keep every coordinate inside the dtype; compared with the spec on the points and with the float64 copy), "
         "tiny (whole diagrams x 1e-8..1e-30: every persistence below any absolute threshold), farshort (|coordinates| T = 1e3..1e6 of "
         "either sign, persistence 7e-6..1e-2 of T, mostly 1-3 points against 0-2; either living at T and shifted back to the origin or "
         "living at the origin and shifted to T), layout (Fortran-ordered arrays, strided views into a larger array, read-only arrays), "
@@ -32,11 +35,15 @@ RULE = ("seeded generator over classes {generic, neg (negative coordinates), mix
         "M in {1,2,5,50,49,98,103,107} + 4 values drawn from 1..130 per run; 0-5 points per diagram; repaired = same births, same deaths, different pairing; every case also carries a third diagram, a shift (often into "
         "negative coordinates), a scale factor (2, 0.5, 3, random, 1024, 1e-9, 1e-12, 1e6), a permutation and diagonal points for the metamorphic relations; "
         "besides sw(F,G), the values sw(F,H), sw(H,G) and sw(F,G) asked once more after all other calls are compared with the averaged 1-D "
-        "transport cost. Call histories (harness/history.py; 14 in quick, 200 in thorough): all steps in one process on shared "
+        "transport cost. One case in four passes M as a numpy integer scalar (int64/int32). Call histories (harness/history.py; 14 in quick, 210 in thorough): all steps in one process on shared "
         "ndarray objects (equal-valued diagrams are the same object, within a step and across steps), every step judged by the same spec "
         "predicate: pairwise (d(A,B), d(B,C), d(A,C), d(C,empty), d(C,B) for diagrams at different places along the diagonal), msweep (one pair "
-        "under several M and back), fault (a 3-column second argument, which raises after the first has been projected, and M = 0, between clean calls), "
-        "layout (pairwise on strided views / Fortran order). Plain cases build fresh arrays for every call. "
+        "under several M and back), fault (rejected or interrupted calls between clean calls on the same objects: a 3-column second argument, which "
+        "raises after the first has been projected; M = 0; M given as a float equal to the integer, as numpy float64/float32, as a string, None, M + 0.5, -M; "
+        "a list of lists; a call under warnings-as-errors; an object array whose last entry raises after k uses, i.e. in the middle of the loop over the "
+        "directions; every second fault history is fault-first on a fresh M: the process meets its M (131..260 quick, ..400 thorough, used by no other case) "
+        "for the first time in a call rejected because M came as a float), edit (the caller overwrites a shared argument in place between calls: same "
+        "object, new points / rows swapped), layout (pairwise on strided views / Fortran order). Returned values are scribbled over (history.scribble). Plain cases build fresh arrays for every call. "
         "Non-trivial: both diagrams non-empty, not reorderings of each other, and the value is > 0 (a history: at least two such steps); distinct = distinct JSON input")
 TRUSTED_BASE = [
     "Coq 8.16.1 kernel, vm_compute (model execution) ; no native_compute",
@@ -45,7 +52,7 @@ TRUSTED_BASE = [
     "primitive-float/int63 specification axioms",
     "hand-written model Model/SlicedM.v of sliced_wasserstein.py lines 27-56",
     "harness: generator, float->exact-rational printer, direction printer (same text in lemma and case files), "
-    "tolerance rule TOL (module docstring), verdict parser; call histories (harness/history.py): the steps of a history are "
+    "tolerance rule TOL (module docstring), verdict parser; fault injection of the fault histories (_fault_call, _Bomb); call histories (harness/history.py): the steps of a history are "
     "judged by the Python spec predicate only, not by the Coq model",
 ]
 ASSUMPTIONS = [
@@ -53,7 +60,10 @@ ASSUMPTIONS = [
     "scipy cityblock are as modelled",
     "binary32/64 rounding of the implementation is bounded by TOL = 1e-6 * sum(|b|+|d|), argued in the docstring, not proved",
     "any (n,2) ndarray of finite numbers is a legitimate diagram argument whatever its memory layout or flags (Fortran order, "
-    "strided view, read-only; the pinned code accepts them all), and a call must leave its arguments usable for later calls",
+    "strided view, read-only; the pinned code accepts them all) and whatever its real dtype (8/16/32/64-bit integers, float16/32/64: the "
+    "distance is a function of the points, not of the width they are stored in; with float32 projections the error stays below "
+    "6e-7 * S, inside TOL), M may be a Python int or a numpy integer scalar, and a call must leave its arguments usable for later "
+    "calls; a rejected or interrupted call must not influence later valid calls (the property quantifies over all calls)",
     "the bound sliced <= 2 * W1 is proved for the rational model against the real-valued Euclidean W1 of "
     "Spec/WassersteinS.v (sw_le_twice_wasserstein: directions in the closed unit disc, points on or above the "
     "diagonal; uses the stdlib classical-reals axioms); for the floating-point implementation it is monitored on "
@@ -113,6 +123,50 @@ def _farshort(rng):
     if rng.random() < 0.5:
         F, G = G, F
     return F, G, H, [at + rng.uniform(-20, 20) * w], (-T if far else T)
+
+
+# narrow dtypes: name -> (smallest, largest, grid) of the values generated (all exactly representable, also as float64)
+NARROW = {"uint8": (0, 255, 1), "int8": (-128, 127, 1), "uint16": (0, 65535, 1), "int16": (-32768, 32767, 1),
+          "uint32": (0, 2 ** 32 - 1, 1), "int32": (-2 ** 31, 2 ** 31 - 1, 1),
+          "float16": (-65504, 65504, 32), "float32": (-2 ** 24, 2 ** 24, 1)}
+
+
+def _narrow(rng):
+    """Diagrams stored in a narrow dtype (8/16/32-bit integers, signed or not, float16, float32) whose values sit in a
+    chosen REGION of the dtype's range: high (all coordinates > 0.55 max: b + d, and 2 b, do not fit the dtype), low
+    (signed: < 0.55 min; unsigned: the bottom fifth), small (around zero), full (anywhere).  The value is a function of
+    the points, so it must be that of the same points held as float64.  Shift and factor keep every translated / scaled
+    coordinate inside the dtype (high / low / full: even multiples of the grid and factor 1/2)."""
+    dtype = rng.choice(sorted(NARROW))
+    lo, hi, g = NARROW[dtype]
+    region = rng.choice(["high", "high", "low", "small", "full"])
+    if region == "high":
+        a, z = int(0.55 * hi), hi
+    elif region == "low":
+        a, z = (lo, int(0.55 * lo)) if lo < 0 else (0, hi // 5)
+    elif region == "small":
+        a, z = (lo // 5 if lo < 0 else 0), hi // 5
+    else:
+        a, z = lo, hi
+    halve = region != "small" and not (region == "low" and lo == 0)
+    if halve:
+        g *= 2
+    a, z = -((-a) // g), z // g          # in grid units, inside [a, z]
+
+    def pt():
+        b = rng.randint(a, z - 1)
+        d = rng.randint(b + 1, z) if rng.random() < 0.7 else min(z, b + rng.randint(1, 5))
+        return [float(b * g), float(d * g)]
+    F = [pt() for _ in range(rng.randint(1, 4))]
+    G = [pt() for _ in range(rng.choice([0, 1, 2, 3, 4]))]
+    H = [pt() for _ in range(rng.randint(0, 3))]
+    xs = [float(rng.randint(a, z) * g) for _ in range(rng.randint(1, 2))]
+    vals = [x for X in (F, G) for p in X for x in p] + xs
+    g0 = NARROW[dtype][2]
+    tmin, tmax = -((min(vals) - lo) // g0) * g0, ((hi - max(vals)) // g0) * g0      # every shift in between stays in range
+    shift = float(rng.choice([tmin if -tmin > tmax else tmax] * 3 + [tmin, tmax, rng.randint(int(tmin // g0), int(tmax // g0)) * g0]))
+    factor = 0.5 if halve else float(rng.choice([2, 3]))
+    return dtype, F, G, H, xs, shift, factor
 
 
 def _case(rng, cls, Ms):
@@ -196,20 +250,24 @@ def _case(rng, cls, Ms):
         xs = [float(rng.randint(lo, lo + 8)) for _ in range(rng.randint(1, 2))]
         shift = float(rng.choice([10, -10, -3, -1000, 7]))
         factor = float(rng.choice([2, 3, 1024]))
+    elif cls == "narrow":
+        dtype, F, G, H, xs, shift, factor = _narrow(rng)
     perm = list(range(len(F)))
     rng.shuffle(perm)
     return {"cls": cls, "F": F, "G": G, "H": H, "M": rng.choice(Ms), "perm": perm, "shift": shift, "factor": factor,
-            "diag": [[x, x] for x in xs], "diag_pos": [rng.random() for _ in xs], "dtype": dtype, "layout": layout}
+            "diag": [[x, x] for x in xs], "diag_pos": [rng.random() for _ in xs], "dtype": dtype, "layout": layout,
+            # the number of directions as a Python int or as a numpy integer scalar (an integer all the same)
+            "Mas": rng.choice(["int"] * 6 + ["int64", "int32"])}
 
 
 CLASSES = ["generic", "generic", "neg", "mixed", "mixed", "reorder", "near", "diag", "scale", "empty",
            "one_empty", "single", "dyadic", "dyadic", "repaired", "repaired", "multi", "multi", "intdtype", "intdtype",
-           "tiny", "tiny", "farshort", "farshort", "farshort", "layout", "layout"]
+           "tiny", "tiny", "farshort", "farshort", "farshort", "layout", "layout", "narrow", "narrow", "narrow"]
 LAYOUTS = ["F", "view", "ro"]      # Fortran order / strided view into a larger array / read-only array
 
 
 def generate(rng, tier):
-    n_cases = 160 if tier == "quick" else 2400
+    n_cases = 178 if tier == "quick" else 2670
     Ms = _Ms(tier)
     cases = [_case(rng, CLASSES[i % len(CLASSES)], Ms) for i in range(n_cases)]
     for i, M in enumerate(Ms):          # every M of the run on a case with a non-zero first slice
@@ -217,22 +275,41 @@ def generate(rng, tier):
         cases.append(c)
     small = [M for M in Ms if M <= 10]
     cases += [_case(rng, "big", small) for _ in range(2 if tier == "quick" else 24)]
-    return cases + _histories(rng, 14 if tier == "quick" else 200, Ms)
+    return cases + _histories(rng, 14 if tier == "quick" else 210, Ms, tier)
 
 
-def _histories(rng, n, Ms):
+FAULTS_M = ["Mfloat", "Mnpfloat", "Mfloat", "Mnpfloat32"]           # the number of directions as a float EQUAL to the integer
+FAULTS = ["G3", "M0", "Mstr", "Mnone", "Mfrac", "Mneg", "list", "werr", "bomb", "bomb", "Mfloat", "Mnpfloat"]
+
+
+def _histories(rng, n, Ms, tier="quick"):
     """Call histories in one process; equal-valued diagrams of different calls (and of the calls inside one step)
     are THE SAME ndarray objects.  pairwise: the loop d(A,B), d(B,C), d(A,C), d(C,empty), d(C,B) over diagrams that sit
-    at different places along the diagonal; msweep: one pair under several M and back; fault: calls that raise
-    half-way (a 3-column second argument: the first has been projected already; M = 0) between clean calls on
-    the same objects; layout: pairwise on strided views / Fortran-ordered arrays."""
+    at different places along the diagonal; msweep: one pair under several M and back; fault: rejected / interrupted
+    calls between clean calls on the same objects (kinds, see _fault_call: a 3-column second argument - the first has
+    been projected already; M = 0; M a float equal to the integer, a numpy float, a string, None, M + 0.5, -M; a list
+    of lists; a call under warnings-as-errors; `bomb`, an object array whose last entry raises after a few uses, i.e.
+    in the middle of the loop over the directions).  Every second fault history is fault-FIRST on a FRESH M: its M
+    (131..260 in quick, ..400 in thorough, not used by any other case of the run) is seen by the process for the first
+    time in a call that is rejected because M came as a float.  edit: the caller overwrites a shared argument in
+    place between calls (same object, new points).  layout: pairwise on strided views / Fortran-ordered arrays."""
     hs = []
+    kinds = ["pairwise", "msweep", "fault", "edit", "layout", "fault", "pairwise"]
+    fresh = [M for M in range(131, 261 if tier == "quick" else 401) if M not in Ms]
+    rng.shuffle(fresh)
+    n_fault = 0
     for i in range(n):
-        kind = ["pairwise", "msweep", "fault", "pairwise", "layout"][i % 5]
+        kind = kinds[i % len(kinds)]
         kd = rng.choice(["pos", "mixed", "neg"])
         offs = rng.sample([0.0, 12.0, -6.0, 3.0, -40.0, 100.0], 3)
         A, B, C = [[[b + t, d + t] for b, d in _dgm(rng, rng.randint(1, 5), kd)] for t in offs]
         M = rng.choice(Ms)
+        first = False
+        if kind == "fault":
+            n_fault += 1
+            first = n_fault % 2 == 1 and bool(fresh)
+            if first:
+                M = fresh.pop()
         layout = rng.choice(["F", "view"]) if kind == "layout" else "C"
 
         def step(F, G, H, M=M):
@@ -241,6 +318,17 @@ def _histories(rng, n, Ms):
             rng.shuffle(perm)
             c.update(cls="step", F=F, G=G, H=H, perm=perm, layout=layout)
             return c
+
+        def fault(fk, F, G, H):
+            c = dict(step(F, G, H), fault=True, fk=fk)
+            if fk == "G3":
+                c["G3"] = [[b, d, 0.0] for b, d in G] or [[0.0, 1.0, 0.0]]
+            elif fk == "M0":
+                c["M"] = 0
+            elif fk == "bomb":          # raises after `fuse` uses: 1 = the diagonal projection, then one per direction
+                c["fuse"] = rng.choice([0, 1, 2, rng.randint(1, max(1, M - 1)), max(1, M - 1)])
+                c["bomb_in"] = rng.choice(["F", "G"])
+            return c
         if kind in ("pairwise", "layout"):
             steps = [step(A, B, C), step(B, C, A), step(A, C, B), step(C, [], B), step(C, B, A)]
             if rng.random() < 0.5:
@@ -248,11 +336,19 @@ def _histories(rng, n, Ms):
         elif kind == "msweep":
             M2, M3 = rng.choice(Ms), rng.choice(Ms)
             steps = [step(A, B, C), step(A, B, C, M2), step(B, A, [], M3), step(A, B, C)]
+        elif kind == "edit":
+            # the caller edits a shared argument in place between calls (same object, new points / rows swapped)
+            t2 = rng.choice(offs)
+            A2 = [[b + t2, d + t2] for b, d in _dgm(rng, len(A), kd)]
+            A3 = [list(p) for p in A2[::-1]]
+            A3[0][1] += rng.choice([0.5, 2.0, 1e-3])
+            steps = [step(A, B, C), dict(step(A2, B, C), edit=[A, A2]), dict(step(B, A3, C), edit=[A2, A3]), step(A3, C, B)]
+        elif first:
+            steps = [fault(rng.choice(FAULTS_M), A, B, C), step(A, B, C), fault(rng.choice(FAULTS), A, B, C), step(B, A, C),
+                     fault("bomb", A, C, B), step(A, C, B)]
         else:
-            bad = [[b, d, 0.0] for b, d in B] or [[0.0, 1.0, 0.0]]
-            f1 = dict(step(A, [], C), fault=True, G3=bad)
-            f2 = dict(step(A, B, C), fault=True, M=0)
-            steps = [step(A, B, C), f1, step(A, B, C), f2, step(B, A, C), step(A, C, B)]
+            steps = [step(A, B, C), fault("G3", A, B, C), step(A, B, C), fault("M0", A, B, C), step(B, A, C),
+                     fault(rng.choice(FAULTS), A, C, B), fault(rng.choice(FAULTS_M), A, B, C), step(A, C, B)]
         hs.append(history.make(kind, steps))
     return hs
 
@@ -288,7 +384,7 @@ def _with_diag(X, diag, pos):
 
 
 def _mk(np, X, dtype, layout):
-    dt = {"int32": np.int32, "int64": np.int64}.get(dtype, float)
+    dt = np.dtype(dtype or "float64")
     a = np.array(X, dtype=float).reshape(-1, 2).astype(dt)
     if layout == "F":
         a = np.asfortranarray(a)
@@ -299,6 +395,82 @@ def _mk(np, X, dtype, layout):
     elif layout == "ro":
         a.setflags(write=False)
     return a
+
+
+class _Bomb(object):
+    """A number-like entry of an object array that raises once it has been used `fuse` times (pinned code: one use for
+    the diagonal projection, then one per direction), i.e. a call that is interrupted in the middle of its loop."""
+
+    def __init__(self, v, fuse):
+        self.v, self.fuse, self.n = float(v), fuse, 0
+
+    def _tick(self):
+        self.n += 1
+        if self.n > self.fuse:
+            raise RuntimeError("injected fault after %d uses" % self.fuse)
+
+    def __mul__(self, o):
+        self._tick()
+        return self.v * o
+    __rmul__ = __mul__
+
+    def __add__(self, o):
+        self._tick()
+        return self.v + o
+    __radd__ = __add__
+
+    def __sub__(self, o):
+        self._tick()
+        return self.v - o
+
+    def __rsub__(self, o):
+        self._tick()
+        return o - self.v
+
+    def __float__(self):
+        self._tick()
+        return self.v
+
+
+def _fault_call(np, sw, c, arr):
+    """A call that is expected to be rejected (or interrupted); its only role is what it leaves behind."""
+    import warnings
+    F, G, M = c["F"], c["G"], c["M"]
+    fk = c.get("fk") or ("G3" if "G3" in c else "M0")
+    Fa, Ga = arr(F), arr(G)
+    if fk == "G3":
+        Ga = np.array(c["G3"], dtype=float).reshape(-1, 3)
+    elif fk == "Mfloat":
+        M = float(M)
+    elif fk == "Mnpfloat":
+        M = np.float64(M)
+    elif fk == "Mnpfloat32":
+        M = np.float32(M)
+    elif fk == "Mstr":
+        M = str(M)
+    elif fk == "Mnone":
+        M = None
+    elif fk == "Mfrac":
+        M = M + 0.5
+    elif fk == "Mneg":
+        M = -M
+    elif fk == "list":
+        Fa = [list(p) for p in F]
+    elif fk == "bomb":
+        X = [list(p) for p in (F if c.get("bomb_in") == "F" else G)] or [[0.0, 1.0]]
+        a = np.empty((len(X), 2), dtype=object)
+        for i, p in enumerate(X):
+            a[i, 0], a[i, 1] = p[0], p[1]
+        a[-1, 1] = _Bomb(X[-1][1], int(c.get("fuse", 1)))
+        if c.get("bomb_in") == "F":
+            Fa = a
+        else:
+            Ga = a
+    if fk == "werr":
+        with warnings.catch_warnings():
+            warnings.simplefilter("error")
+            return sw(Fa, Ga, M=M)
+    return sw(Fa, Ga, M=M)
 
 
 def impl_call(c, memo=None):
@@ -316,33 +488,46 @@ def impl_call(c, memo=None):
         return x if x == x and abs(x) != float("inf") else repr(x)
     dtype, layout = c.get("dtype", "float64"), c.get("layout", "C")
 
+    def sw(*a, **k):
+        r = sliced_wasserstein(*a, **k)
+        v = f(r)
+        history.scribble(r)         # whatever came back belongs to the caller
+        return v
+
     def arr(X):
         if memo is None:
             return _mk(np, X, dtype, layout)
         return history.intern(memo, ["arr", X, dtype, layout], lambda: _mk(np, X, dtype, layout))
 
     def call():
-        F, G, H, M = c["F"], c["G"], c["H"], c["M"]
-        if c.get("fault"):      # a call that is expected to raise; its only role is what it leaves behind
-            G_ = np.array(c["G3"], dtype=float).reshape(-1, 3) if "G3" in c else arr(G)
-            return {"fault": f(sliced_wasserstein(arr(F), G_, M=M))}
+        F, G, H = c["F"], c["G"], c["H"]
+        M = {"int64": np.int64, "int32": np.int32}.get(c.get("Mas"), int)(c["M"])
+        if memo is not None and c.get("edit") and layout != "ro":
+            # the caller overwrites one of its (shared) arrays in place: same object, new points
+            old, new = c["edit"]
+            a = arr(old)
+            a[...] = np.array(new, dtype=float).reshape(-1, 2)
+            for k in [k for k, v in memo.items() if v is a]:
+                del memo[k]
+            history.intern(memo, ["arr", new, dtype, layout], lambda: a)
+        if c.get("fault"):
+            return {"fault": _fault_call(np, sw, c, arr)}
         t, k = c["shift"], c["factor"]
         sh = lambda X: [[b + t, d + t] for b, d in X]
         scl = lambda X: [[b * k, d * k] for b, d in X]
-        o = {"v": f(sliced_wasserstein(arr(F), arr(G), M=M)),
-             "sym": f(sliced_wasserstein(arr(G), arr(F), M=M)),
-             "perm": f(sliced_wasserstein(arr(F), arr([F[i] for i in c["perm"]]), M=M)),
-             "dg": f(sliced_wasserstein(arr(_with_diag(F, c["diag"], c["diag_pos"])),
-                                        arr(_with_diag(G, c["diag"][::-1], c["diag_pos"])), M=M)),
-             "sh": f(sliced_wasserstein(arr(sh(F)), arr(sh(G)), M=M)),
-             "sc": f(sliced_wasserstein(arr(scl(F)), arr(scl(G)), M=M)),
-             "FH": f(sliced_wasserstein(arr(F), arr(H), M=M)),
-             "HG": f(sliced_wasserstein(arr(H), arr(G), M=M))}
+        o = {"v": sw(arr(F), arr(G), M=M),
+             "sym": sw(arr(G), arr(F), M=M),
+             "perm": sw(arr(F), arr([F[i] for i in c["perm"]]), M=M),
+             "dg": sw(arr(_with_diag(F, c["diag"], c["diag_pos"])),
+                      arr(_with_diag(G, c["diag"][::-1], c["diag_pos"])), M=M),
+             "sh": sw(arr(sh(F)), arr(sh(G)), M=M),
+             "sc": sw(arr(scl(F)), arr(scl(G)), M=M),
+             "FH": sw(arr(F), arr(H), M=M),
+             "HG": sw(arr(H), arr(G), M=M)}
         # the first call once more, after all the others (in a history: on the same objects)
-        o["v2"] = f(sliced_wasserstein(arr(F), arr(G), M=M))
+        o["v2"] = sw(arr(F), arr(G), M=M)
         if dtype != "float64":
-            o["vf"] = f(sliced_wasserstein(np.array(F, dtype=float).reshape(-1, 2),
-                                           np.array(G, dtype=float).reshape(-1, 2), M=M))
+            o["vf"] = sw(np.array(F, dtype=float).reshape(-1, 2), np.array(G, dtype=float).reshape(-1, 2), M=M)
         try:
             o["w1"] = f(wasserstein(np.array(F, dtype=float).reshape(-1, 2), np.array(G, dtype=float).reshape(-1, 2))) if wasserstein else None
         except Exception:
